@@ -24,3 +24,5 @@ pub assume_specification<T, F: FnOnce() -> T>[ Option::<T>::get_or_insert_with ]
     ensures match *old(o) { Some(x) => *r == x, None => f.ensures((), *r) }, *final(o) == Some(*final(r));
 pub assume_specification<T>[ Option::<T>::or ](o: Option<T>, b: Option<T>) -> (r: Option<T>)
     ensures r == (match o { Some(x) => Some(x), None => b });
+pub assume_specification<T>[ Option::<T>::replace ](o: &mut Option<T>, v: T) -> (r: Option<T>)
+    ensures r == *old(o), *final(o) == Some(v);
